@@ -30,7 +30,7 @@ EXPLANATION = (
     "by construction at each of its definitions (constant <= 1, a ratio x/y under the guard x < y, min(x, y)/y, or a percentage of the "
     "state / 100 whose every writer keeps it <= 100) - so the gain is scaled down by no more than the crop's productivity factor. T-COLS: writer lists, column-name "
     "lists and array widths agree; state columns carry the field of the same name, flux columns the designated "
-    "return of the designated process. C06.c also: both seasonal counters are cleared on every path of the season reset; on the net-irrigation valuation no constant store to the net counter in transpiration is reachable. C06.f: the yearly CO2 concentration that enters the CO2-adjusted water productivity is interpolated from the user's table sorted by year (np.interp needs ascending years; an unsorted table is valid input). C06.g (= C08.c): the season reset rewrites the CO2 adjustment of the water productivity unconditionally on the season's own crop copy - the factor of the daily biomass gain WP x fCO2 x Tr/ET0 is the season's, not a stale copy's. NOT decided: numeric equality of sums (follows from the identities by exact "
+    "return of the designated process. C06.c also: both seasonal counters are cleared on every path of the season reset; on the net-irrigation valuation no constant store to the net counter in transpiration is reachable. C06.f: the yearly CO2 concentration that enters the CO2-adjusted water productivity is interpolated from the user's table sorted by year (np.interp needs ascending years; an unsorted table is valid input). C06.g (= C08.c): the season reset rewrites the CO2 adjustment of the water productivity unconditionally on the season's own crop copy - the factor of the daily biomass gain WP x fCO2 x Tr/ET0 is the season's, not a stale copy's. C06.h: the depth written to the IrrDay column under a surface-irrigation method is the depth irrigation() returned (and accumulated in the seasonal counter in the same call), with no redefinition in between. NOT decided: numeric equality of sums (follows from the identities by exact "
     "arithmetic only).")
 
 IN_SEASON = {"growing_season is True": True, "growing_season is False": False}
@@ -433,6 +433,41 @@ def rule_d(chk, prog, fs):
     reset_paired_with_counter(chk, prog, "C06.d")
 
 
+def rule_h(chk, prog):
+    """C06.h (seasonal irrigation = sum of the daily column): the value the step writes to the IrrDay column under a surface-irrigation method
+    is the very depth `irrigation()` returned - the one it added to the seasonal counter in the same call: every definition of the local that
+    reaches the column is the unpacking of that call (no rescaling in between; the application efficiency belongs to the infiltrating water,
+    not to the depth applied)."""
+    from ..cp import step_local
+    step = prog.func(STEP_FN)
+    flow = flow_of(step)
+    cfg = flow.cfg
+    irr = step_local(prog, "irr")
+    irr_day = step_local(prog, "irr_day")
+    n = 0
+    for a in walk_no_nested(step.node):
+        if not (isinstance(a, ast.Assign) and len(a.targets) == 1 and isinstance(a.targets[0], ast.Name) and a.targets[0].id == irr_day
+                and isinstance(a.value, ast.Name) and a.value.id == irr):
+            continue
+        nid = flow.stmt_node.get(id(a))
+        if nid is None:
+            continue
+        n += 1
+        construct = norm(a)
+        bad = []
+        for d in flow.defs_reaching(irr, nid):
+            da = cfg.nodes[d].ast if d != ENTRY else None
+            ok = isinstance(da, ast.Assign) and isinstance(da.value, ast.Call) and getattr(prog.resolve_call(step, da.value), "name", "") == "irrigation"
+            if not ok:
+                bad.append(norm(da)[:60] if da is not None else "function entry")
+        if bad:
+            chk.violation("C06.h", STEP_FN, construct, f"the depth written to the daily irrigation column is redefined after irrigation() returned it ({'; '.join(bad)}): "
+                          "the seasonal counter, accumulated inside that call, no longer equals the sum of the daily column", loc=step.loc(a))
+        else:
+            chk.ok("C06.h", STEP_FN, construct, "the depth irrigation() returned, unmodified")
+    chk.floor("C06.h", n, 1, "stores of the surface-irrigation depth to the daily column's local")
+
+
 def reset_paired_with_counter(chk, prog, rule: str):
     """(C06.d, shared with C12.g) the season reset is called only right after the season counter has been advanced to the season that starts:
     the reset converts the calendar of, and applies the CO2 adjustment to, Seasonal_Crop_List[season_counter] - called before the increment it
@@ -693,6 +728,7 @@ def rule_e(chk, prog):
 
 
 def run(chk, prog, tier):
+    rule_h(chk, prog)
     # C06.g = C08.c: the CO2 factor the daily biomass gain is scaled with is the season's own (rewritten unconditionally at every season start)
     from .c08 import rule_c as co2_factor_rewritten
     from ._alias import Alias
